@@ -167,7 +167,7 @@ def xdecOne (kids : List (SN τ)) (fuel : Nat) (xs : List X) (n : Tok) : Option 
     (group.mapM fun x => do
       let ks ← xdecKids ck fuel (elKids x)
       let kv ← (ks.find? fun (d : DN) => d.name = keys.headD []).bind fun d => d.vals.head?
-      pure (DN.mk kv ks [])).map fun es => DN.mk n es []
+      pure (DN.mk kv ks [])).bind fun es => if dupEntry es then none else some (DN.mk n es [])
   | some (.leaf ..) =>
     (match group with
      | [x] => some (DN.mk n [] [elText x])
@@ -200,7 +200,8 @@ def xwfKids (kids : List (SN τ)) : List DN → Prop
      | _, _ => False) ∧ xwfKids kids r
 def xwfEntries (kids : List (SN τ)) (key : Tok) : List DN → Prop
   | [] => True
-  | .mk en ek ev :: r => ev = [] ∧ xwfKids kids ek ∧ keyOf key ek = some en ∧ xwfEntries kids key r
+  | .mk en ek ev :: r =>
+    ev = [] ∧ xwfKids kids ek ∧ keyOf key ek = some en ∧ (∀ e ∈ r, e.name ≠ en) ∧ xwfEntries kids key r
 end
 
 mutual
@@ -241,6 +242,15 @@ theorem xblock_named (kids : List (SN τ)) (d : DN) : ∀ x ∈ xblock kids d, e
       obtain ⟨v, _, rfl⟩ := hx; rfl
     · cases hx
 
+
+/-- entries named by pairwise different key values: no duplicate -/
+theorem dupEntry_of_wf (kids : List (SN τ)) (key : Tok) : ∀ es : List DN, xwfEntries kids key es → dupEntry es = false
+  | [], _ => rfl
+  | .mk en ek ev :: r, h => by
+    rw [xwfEntries.eq_def] at h
+    obtain ⟨_, _, _, hne, hr⟩ := h
+    simp only [dupEntry, dupEntry_of_wf kids key r hr, Bool.or_false, List.any_eq_false, decide_eq_true_eq]
+    intro e he; exact hne e he
 
 theorem xwf_head (kids : List (SN τ)) (d : DN) (r : List DN) (h : xwfKids kids (d :: r)) :
     (∀ e ∈ r, e.name ≠ d.name) ∧ xblock kids d ≠ [] ∧ xwfKids kids r := by
@@ -355,6 +365,7 @@ theorem xdec_all (kids : List (SN τ)) : ∀ (ds : List DN), xwfKids kids ds →
             simp only [xencEntries_map]
             unfold xdecEntry at hent
             rw [hent]
+            simp only [Option.bind_some, dupEntry_of_wf ck (keys.headD []) dk he]
             rfl
           | leaf fn ty fd fm =>
             simp only [hl] at h2
@@ -375,7 +386,7 @@ theorem xdec_entries (ck : List (SN τ)) (key n : Tok) : ∀ (es : List DN), xwf
   | [], _, _, _ => rfl
   | .mk en ek ev :: r, hw, g, hg => by
     rw [xwfEntries.eq_def] at hw
-    obtain ⟨hv, hk, hkey, hr⟩ := hw
+    obtain ⟨hv, hk, hkey, _, hr⟩ := hw
     subst hv
     rw [dDepthL, dDepth] at hg
     cases g with
